@@ -12,7 +12,7 @@ import (
 func init() {
 	register(&Check{
 		ID: "C10", Level: "exploration", QuickSecs: 150, ThoroughSecs: 1200,
-		Rule:        "union of families: (a) block-free bodies over the C01 alphabet up to N nodes (quick 4, thorough 5); (b) bodies with actions, code predicates (both results), state blocks and labels up to 3 nodes; (c) state-store bodies over {'a','b',#{},&{}} up to 4 nodes with all three store kinds; (d) fault scripts (error / panic(error) / panic(string) per block, <=2 faulting) under Recover(true) and Recover(false); (e) left-recursive rules (direct, with action and state, indirect) generated with -support-left-recursion. For X in the subsets of {-optimize-basic-latin, -optimize-grammar} (plus -support-left-recursion for (e)): parser(X) vs parser(X + -optimize-parser), real vs real, on all inputs over {a,b} up to L=3: same value, same complete error list (text, order, Inner identity), same escaping panic, same block log; and the optimized static code contains the state machinery iff the grammar has a #{} block. Non-trivial = the case has a code block invocation, an error, or backtracking. Plus the cross family (cross.go, bodies <= 3 nodes, X over {-optimize-basic-latin, -optimize-grammar, -support-left-recursion}, fault scripts - every block in turn returning an error / panicking -, Recover on/off, inputs with invalid bytes) and the two-recovery-operator family of C14.",
+		Rule:        "histories: one action block inside every kind of construct (operand of ! and &, repetition, failing alternative, label, both sides of a recovery operator, called rule, behind a state block, left-recursive rule) x calls {7 inputs x no fault / error / panic(error) / panic(string) x Recover on/off}, EVERY ordered pair of calls in one process on the standard and the optimized parser: the second call answers like a first call; union of families: (a) block-free bodies over the C01 alphabet up to N nodes (quick 4, thorough 5); (b) bodies with actions, code predicates (both results), state blocks and labels up to 3 nodes; (c) state-store bodies over {'a','b',#{},&{}} up to 4 nodes with all three store kinds; (d) fault scripts (error / panic(error) / panic(string) per block, <=2 faulting) under Recover(true) and Recover(false); (e) left-recursive rules (direct, with action and state, indirect) generated with -support-left-recursion. For X in the subsets of {-optimize-basic-latin, -optimize-grammar} (plus -support-left-recursion for (e)): parser(X) vs parser(X + -optimize-parser), real vs real, on all inputs over {a,b} up to L=3: same value, same complete error list (text, order, Inner identity), same escaping panic, same block log; and the optimized static code contains the state machinery iff the grammar has a #{} block. Non-trivial = the case has a code block invocation, an error, or backtracking. Plus the cross family (cross.go, bodies <= 3 nodes, X over {-optimize-basic-latin, -optimize-grammar, -support-left-recursion}, fault scripts - every block in turn returning an error / panicking -, Recover on/off, inputs with invalid bytes) and the two-recovery-operator family of C14.",
 		Assumptions: []string{"E1 loader", "both sides are the real builder + runtime; the reference is consulted only to count non-trivial cases"},
 		Run:         runC10,
 	})
@@ -130,6 +130,10 @@ func runC10(c *ShardCtx) {
 	}
 	xs := []core.Gen{{}, {BasicLatin: true}, {OptGrammar: true}, {BasicLatin: true, OptGrammar: true}}
 	def := []rtapi.RunOpts{{MaxExpr: 600, Filename: "f"}}
+	// histories (common.go, historyFamily): a call aborted inside every kind of construct, then another
+	// call - on the standard and on the optimized parser (each must answer like a first call; that
+	// first calls agree between the two is what the other families decide)
+	historyFamily(c, &idx, []core.Gen{{}, {Optimize: true}, {Optimize: true, BasicLatin: true}, {LeftRec: true}, {LeftRec: true, Optimize: true}})
 	// cross family (cross.go): every construct x every flag set X, parser(X) vs parser(X + -optimize-parser),
 	// with fault scripts (every block in turn returns an error / panics) and both Recover settings
 	{
